@@ -916,6 +916,7 @@ void var_opt_sketch<T, A>::decrease_k_by_1() {
     // exact mode, but we have some data
     --k_;
     if (h_ > k_) {
+      filled_data_ = true; // as in update_warmup_phase: all k_+1 slots hold an item, the gap a moved-from one
       transition_from_warmup();
     }
   } else if ((h_ > 0) && (r_ > 0)) {
